@@ -23,6 +23,9 @@ def main():
     elif pid == 'C15':
         import fdt
         fdt.main(pid, 'quick' if tier == 'replay' else tier, rp)
+    elif pid == 'C16':
+        import adapt
+        adapt.main(pid, 'quick' if tier == 'replay' else tier, rp)
     elif pid == 'C12':
         import after
         after.main(pid, 'quick' if tier == 'replay' else tier, rp)
